@@ -27,6 +27,9 @@ pub struct Round {
     /// raw copies come before (true) or after (false) the program's own entries
     #[serde(default)]
     raw_first: bool,
+    /// call flush() on the writer after the raw copies
+    #[serde(default)]
+    flush_after_raw: bool,
 }
 
 const RAW_SRC: [(&str, &[u8], u16); 2] = [("src/deflated.txt", b"raw copy source: deflated deflated deflated deflated deflated", 8), ("src/stored.bin", b"\x00\x01\x02 stored raw copy source", 0)];
@@ -148,6 +151,10 @@ fn check(h: &History, info: &mut Info) -> Result<(), String> {
                         None => w.raw_copy_file(f).map_err(|e| format!("round {ri}: raw_copy_file: {e}"))?,
                     }
                     raw_model.push(MEntry { name, content: Some(RAW_SRC[k].1.to_vec()), method: RAW_SRC[k].2, dos: gen::Opts::plain(gen::Method::Stored).dos(), mode: Some(0o100644), password: None });
+                }
+                if r.flush_after_raw && !r.raw.is_empty() {
+                    use std::io::Write;
+                    w.flush().map_err(|e| format!("round {ri}: flush: {e}"))?;
                 }
                 Ok(())
             };
@@ -337,7 +344,7 @@ pub fn run(ctx: &mut Ctx) {
         "cpython_bases",
         npy,
         &|| {
-            let round = (gen::program(3, 5000, true, false), prop_oneof![3 => Just(false), 1 => Just(true)]).prop_map(|(program, by_drop)| Round { program: gen::tame(program), by_drop, raw: vec![], raw_first: false });
+            let round = (gen::program(3, 5000, true, false), prop_oneof![3 => Just(false), 1 => Just(true)]).prop_map(|(program, by_drop)| Round { program: gen::tame(program), by_drop, raw: vec![], raw_first: false, flush_after_raw: false });
             (super::c03::py_spec(), proptest::collection::vec(round, 1..=3)).prop_map(|(s, rounds)| History { base: Base::CPython(s), rounds }).boxed()
         },
         &|h: &History, info: &mut Info| {
@@ -361,8 +368,9 @@ pub fn run(ctx: &mut Ctx) {
         "histories",
         n,
         &|| {
-            let round = (gen::program(3, 20000, true, true), prop_oneof![3 => Just(false), 1 => Just(true)]).prop_map(|(program, by_drop)| Round { program: gen::tame(program), by_drop, raw: vec![], raw_first: false });
+            let round = (gen::program(3, 20000, true, true), prop_oneof![3 => Just(false), 1 => Just(true)]).prop_map(|(program, by_drop)| Round { program: gen::tame(program), by_drop, raw: vec![], raw_first: false, flush_after_raw: false });
             let round = (round, prop_oneof![3 => Just(vec![]), 1 => proptest::collection::vec((any::<u16>(), prop_oneof![2 => Just(None), 1 => gen::name().prop_map(Some)]), 1..3)], any::<bool>()).prop_map(|(mut r, raw, raw_first)| {
+                r.flush_after_raw = raw_first ^ (raw.len() == 1);
                 r.raw = raw;
                 r.raw_first = raw_first;
                 r
